@@ -1,7 +1,7 @@
 (* Property C08 -- non-linear and total least-squares fits obey the implicit-function rule.  Theorems only. *)
 From Coq Require Import ZArith QArith Reals List Bool.
 From Interval Require Import Interval.Interval Real.Xreal Real.Xreal_derive.
-From PV Require Import Base.QAux Base.RI Base.Expr Base.ExprFold Base.Dyadic Base.DyadicR Lin.Mat Fit.Implicit Fit.ImplicitSound Fit.ImplicitTop Fit.TableSound Fit.ElimSound Fit.TlsTop.
+From PV Require Import Base.QAux Base.RI Base.Expr Base.ExprFold Base.Dyadic Base.DyadicR Lin.Mat Fit.Implicit Fit.ImplicitSound Fit.ImplicitTop Fit.TableSound Fit.ElimSound Fit.TlsTop Fit.VerdictSound.
 Import ListNotations.
 
 (* the symbolic partial derivative used for gradient, Hessian and mixed derivatives of chi^2 IS the real derivative:
@@ -155,3 +155,20 @@ Print Assumptions interval_elimination_is_sound.
 Print Assumptions positive_verdict_implies_the_differentiated_equations.
 Print Assumptions fluctuation_table_rows_enclose_the_weighted_fluctuations.
 Print Assumptions positive_verdict_with_hidden_unknowns.
+
+(* the remaining verdicts of this check are sound as statements about real numbers (Fit/VerdictSound.v) *)
+Theorem stationarity_verdict_is_sound :
+  forall F nu l uvals tol i, stationary_ok F nu (qenvI l) uvals tol = true -> (i < nu)%nat ->
+  exists f, evalX (renv (qenvR l)) F = Xreal f /\
+  let g := dval l F i in let h := dval l (Dfold F i) i in let u := Q2R (nth i uvals 0%Q) in
+  (0 < h /\ g * g <= (Q2R tol * Q2R tol) * (h * ((1 + Rabs f) + h * (u * u)))
+  /\ Xderive_pt (fun t => evalX (updX (qenvR l) i t) F) (Xreal (qenvR l i)) (Xreal g)
+  /\ Xderive_pt (fun t => evalX (updX (qenvR l) i t) (Dfold F i)) (Xreal (qenvR l i)) (Xreal h))%R.
+Proof. exact stationary_ok_sound. Qed.
+Theorem chisq_verdict_is_sound :
+  forall c : fitcase, guardsI (qenvI (fc_uvals c ++ fc_dvals c)) (fc_F c) = true -> fit_chisq_ok c = true ->
+  exists r, evalX (renv (qenvR (fc_uvals c ++ fc_dvals c))) (fc_F c) = Xreal r
+            /\ (Rabs (r - Q2R (fc_chisq c)) < Q2R (Qabs.Qabs (fc_chisq c) * fc_tol c + fc_tol c))%R.
+Proof. exact fit_chisq_ok_sound. Qed.
+Print Assumptions stationarity_verdict_is_sound.
+Print Assumptions chisq_verdict_is_sound.
